@@ -3,7 +3,7 @@
    declarative listing, the scans return the first match, selection keeps the request order. *)
 EXTENDS LayoutShapes, Hseq, LayoutBoundary
 CONSTANTS WithBoundary
-MCInit == sh \in (IF WithBoundary THEN {<<>>} \cup BoundarySet ELSE {<<>>})
+MCInit == sh \in (IF WithBoundary THEN {<<>>} \cup BoundarySetHseq ELSE {<<>>})
 Spec == MCInit /\ [][Next]_sh
 
 C03_Listing == UnfoldIsListing(sh)
